@@ -29,14 +29,9 @@ pub struct ModuleNamespace {
     /// Cached binding resolutions for each export name.
     /// Populated once during namespace creation; bindings are immutable after linking.
     ///
-    /// SAFETY: Every `Module` inside a `ResolvedBinding` is a transitive dependency
-    /// of the parent `module` field (which IS traced). Those modules are reachable
-    /// through `SourceTextModule::loaded_modules` / `SyntheticModule`, so tracing
-    /// them again here would be redundant. Skipping the trace avoids walking the
-    /// entire hashmap on every GC cycle. This is a performance optimization:
-    /// our GC already ignores pointers that were already traced, but this avoids
-    /// a lookup to check if the pointer is alive. The logic is correct either way.
-    #[unsafe_ignore_trace]
+    /// NOTE: this has to be traced. The collector infers its roots: a `Module` handle that is
+    /// not found while tracing the heap counts as a handle held from outside the heap, which
+    /// would keep that module (and through it the whole realm) alive for ever.
     resolved_bindings: FxHashMap<JsString, ResolvedBinding>,
 }
 
